@@ -116,11 +116,11 @@ macro_rules! binop_refs {
 /// decoder for the non-zero encoding form, by `random`, `invert`; never by arithmetic), which only
 /// serves comparisons with zero to constant-fold during symbolic execution.  Invariant: `.1 => .0 != 0`.
 #[derive(Clone, Copy, Debug, Default, Serialize, Deserialize)]
-pub struct Scalar(pub u16, pub bool);
+pub struct Scalar(pub u16, pub u16);
 impl PartialEq for Scalar {
     #[inline]
     fn eq(&self, o: &Self) -> bool {
-        if (self.1 && o.0 == 0) || (o.1 && self.0 == 0) {
+        if (self.1 != 0 && o.0 == 0) || (o.1 != 0 && self.0 == 0) {
             false
         } else {
             self.0 == o.0
@@ -130,15 +130,15 @@ impl PartialEq for Scalar {
 impl Eq for Scalar {}
 
 impl Scalar {
-    pub const ZERO: Scalar = Scalar(0, false);
-    pub const ONE: Scalar = Scalar(1, true);
+    pub const ZERO: Scalar = Scalar(0, 0);
+    pub const ONE: Scalar = Scalar(1, 1);
     /// value without hint
     pub const fn from_raw(v: u16) -> Scalar {
-        Scalar(v, false)
+        Scalar(v, 0)
     }
     /// value known to be non-zero
     pub const fn from_nonzero_raw(v: u16) -> Scalar {
-        Scalar(v, true)
+        Scalar(v, 1)
     }
     pub const BYTES: usize = 32;
 
@@ -154,7 +154,7 @@ impl Scalar {
         }
         let ok = hi == 0 && (bytes[30] == 1 || (bytes[30] == 0 && bytes[31] == 0));
         let v = if bytes[30] == 1 { bytes[31] as u16 + 1 } else { 0 };
-        CtOption::new(Scalar(if ok { v } else { 0 }, ok && bytes[30] == 1), Choice::from(ok as u8))
+        CtOption::new(Scalar(if ok { v } else { 0 }, (ok && bytes[30] == 1) as u16), Choice::from(ok as u8))
     }
     pub fn to_be_bytes(&self) -> [u8; 32] {
         let mut out = [0u8; 32];
@@ -168,12 +168,12 @@ impl Scalar {
     /// model expander's stream, reduced mod Q (all 257 values reachable; no loop)
     pub fn from_okm(bytes: &[u8; 48]) -> Scalar {
         let v = (bytes[0] as u32) | ((bytes[1] as u32) << 8);
-        Scalar((v % Q) as u16, false)
+        Scalar((v % Q) as u16, 0)
     }
     /// Model: a uniformly random NON-ZERO scalar (zero has probability 1/r in the real field and is
     /// one of the globally excluded degenerate events): one draw, mapped to 1..=256 without a branch.
     pub fn random(mut rng: impl rand_core::RngCore) -> Self {
-        Scalar(((rng.next_u32() & 0xff) as u16) + 1, true)
+        Scalar(((rng.next_u32() & 0xff) as u16) + 1, 1)
     }
     pub fn invert(&self) -> CtOption<Self> {
         // Under Kani the inversion of zero (sk + e = 0, r2 = 0: probability 1/r in the real group) is
@@ -183,13 +183,13 @@ impl Scalar {
         kani::assume(self.0 != 0);
         #[cfg(not(kani))]
         if self.0 == 0 {
-            return CtOption::new(Scalar(0, false), Choice::from(0));
+            return CtOption::new(Scalar(0, 0), Choice::from(0));
         }
         #[cfg(kani)]
         {
             let w: u16 = kani::any();
             kani::assume((w as u32) < Q && mulq(w, self.0) == 1);
-            CtOption::new(Scalar(w, true), Choice::from(1))
+            CtOption::new(Scalar(w, 1), Choice::from(1))
         }
         #[cfg(not(kani))]
         {
@@ -199,22 +199,22 @@ impl Scalar {
                 acc = mulq(acc, self.0);
                 k += 1;
             }
-            CtOption::new(Scalar(acc, true), Choice::from(1))
+            CtOption::new(Scalar(acc, 1), Choice::from(1))
         }
     }
     pub fn is_zero(&self) -> Choice {
         Choice::from((self.0 == 0) as u8)
     }
     pub fn square(&self) -> Self {
-        Scalar(mulq(self.0, self.0), false)
+        Scalar(mulq(self.0, self.0), 0)
     }
     pub fn double(&self) -> Self {
-        Scalar(addq(self.0, self.0), false)
+        Scalar(addq(self.0, self.0), 0)
     }
 }
 impl ConditionallySelectable for Scalar {
     fn conditional_select(a: &Self, b: &Self, c: Choice) -> Self {
-        Scalar(u16::conditional_select(&a.0, &b.0, c), u8::conditional_select(&(a.1 as u8), &(b.1 as u8), c) != 0)
+        Scalar(u16::conditional_select(&a.0, &b.0, c), u16::conditional_select(&a.1, &b.1, c))
     }
 }
 impl ConstantTimeEq for Scalar {
@@ -224,12 +224,12 @@ impl ConstantTimeEq for Scalar {
 }
 impl From<u64> for Scalar {
     fn from(v: u64) -> Self {
-        Scalar((v % Q as u64) as u16, false)
+        Scalar((v % Q as u64) as u16, 0)
     }
 }
-binop_refs!(Scalar, Scalar, Scalar, Add, add, |a, b| Scalar(addq(a.0, b.0), false));
-binop_refs!(Scalar, Scalar, Scalar, Sub, sub, |a, b| Scalar(subq(a.0, b.0), false));
-binop_refs!(Scalar, Scalar, Scalar, Mul, mul, |a, b| Scalar(mulq(a.0, b.0), false));
+binop_refs!(Scalar, Scalar, Scalar, Add, add, |a, b| Scalar(addq(a.0, b.0), 0));
+binop_refs!(Scalar, Scalar, Scalar, Sub, sub, |a, b| Scalar(subq(a.0, b.0), 0));
+binop_refs!(Scalar, Scalar, Scalar, Mul, mul, |a, b| Scalar(mulq(a.0, b.0), 0));
 impl Neg for Scalar {
     type Output = Scalar;
     fn neg(self) -> Scalar {
@@ -270,13 +270,13 @@ macro_rules! group_model {
         /// decoders, the hash and the generator; never by arithmetic).  Invariant: `.1 => .0 != 0`.
         /// The hint only serves equality with the identity to constant-fold during symbolic execution.
         #[derive(Clone, Copy, Debug, Default, Serialize, Deserialize)]
-        pub struct $P(pub u16, pub bool);
+        pub struct $P(pub u16, pub u16);
         #[derive(Clone, Copy, Debug, Default, Serialize, Deserialize)]
-        pub struct $A(pub u16, pub bool);
+        pub struct $A(pub u16, pub u16);
         impl PartialEq for $P {
             #[inline]
             fn eq(&self, o: &Self) -> bool {
-                if (self.1 && o.0 == 0) || (o.1 && self.0 == 0) {
+                if (self.1 != 0 && o.0 == 0) || (o.1 != 0 && self.0 == 0) {
                     false
                 } else {
                     self.0 == o.0
@@ -287,7 +287,7 @@ macro_rules! group_model {
         impl PartialEq for $A {
             #[inline]
             fn eq(&self, o: &Self) -> bool {
-                if (self.1 && o.0 == 0) || (o.1 && self.0 == 0) {
+                if (self.1 != 0 && o.0 == 0) || (o.1 != 0 && self.0 == 0) {
                     false
                 } else {
                     self.0 == o.0
@@ -297,7 +297,7 @@ macro_rules! group_model {
         impl Eq for $A {}
         impl ConditionallySelectable for $P {
             fn conditional_select(a: &Self, b: &Self, c: Choice) -> Self {
-                $P(u16::conditional_select(&a.0, &b.0, c), u8::conditional_select(&(a.1 as u8), &(b.1 as u8), c) != 0)
+                $P(u16::conditional_select(&a.0, &b.0, c), u16::conditional_select(&a.1, &b.1, c))
             }
         }
         impl ConstantTimeEq for $P {
@@ -307,7 +307,7 @@ macro_rules! group_model {
         }
         impl ConditionallySelectable for $A {
             fn conditional_select(a: &Self, b: &Self, c: Choice) -> Self {
-                $A(u16::conditional_select(&a.0, &b.0, c), u8::conditional_select(&(a.1 as u8), &(b.1 as u8), c) != 0)
+                $A(u16::conditional_select(&a.0, &b.0, c), u16::conditional_select(&a.1, &b.1, c))
             }
         }
         impl ConstantTimeEq for $A {
@@ -318,23 +318,23 @@ macro_rules! group_model {
         impl $P {
             /// element with the given discrete log (hint unknown)
             pub const fn from_dlog(d: u16) -> Self {
-                $P(d, false)
+                $P(d, 0)
             }
             /// element with a discrete log known to be non-zero
             pub const fn from_nonzero_dlog(d: u16) -> Self {
-                $P(d, true)
+                $P(d, 1)
             }
         }
         impl $P {
-            pub const IDENTITY: $P = $P(0, false);
-            pub const GENERATOR: $P = $P(1, true);
+            pub const IDENTITY: $P = $P(0, 0);
+            pub const GENERATOR: $P = $P(1, 1);
             pub const COMPRESSED_BYTES: usize = $CB;
             pub const UNCOMPRESSED_BYTES: usize = $UB;
             pub fn identity() -> Self {
-                $P(0, false)
+                $P(0, 0)
             }
             pub fn generator() -> Self {
-                $P(1, true)
+                $P(1, 1)
             }
             pub fn is_identity(&self) -> Choice {
                 Choice::from((self.0 == 0) as u8)
@@ -360,7 +360,7 @@ macro_rules! group_model {
             pub fn from_compressed_hex(hex: &str) -> CtOption<Self> {
                 let b = hex.as_bytes();
                 if b.len() != 2 * $CB {
-                    return CtOption::new($P(0, false), Choice::from(0));
+                    return CtOption::new($P(0, 0), Choice::from(0));
                 }
                 let hv = |c: u8| -> u16 {
                     match c {
@@ -371,7 +371,7 @@ macro_rules! group_model {
                     }
                 };
                 let v = (hv(b[0]) * 16 + hv(b[1])) % 256 + 1;
-                CtOption::new($P(v, true), Choice::from(1))
+                CtOption::new($P(v, 1), Choice::from(1))
             }
             /// Model of hash_to_curve: one oracle query (len 128 like the real hash_to_field for
             /// two field elements), mapped to a non-identity element.
@@ -388,20 +388,20 @@ macro_rules! group_model {
                 let mut e = X::expand_message(&[msg], &dsts, 128).unwrap();
                 e.fill_bytes(&mut buf);
                 let v = ((buf[0] ^ buf[1].rotate_left(3)) as u16) + 1;
-                $P(v, true)
+                $P(v, 1)
             }
             pub fn double(&self) -> Self {
-                $P(addq(self.0, self.0), false)
+                $P(addq(self.0, self.0), 0)
             }
         }
         impl $A {
             pub const COMPRESSED_BYTES: usize = $CB;
             pub const UNCOMPRESSED_BYTES: usize = $UB;
             pub fn identity() -> Self {
-                $A(0, false)
+                $A(0, 0)
             }
             pub fn generator() -> Self {
-                $A(1, true)
+                $A(1, 1)
             }
             pub fn is_identity(&self) -> Choice {
                 Choice::from((self.0 == 0) as u8)
@@ -440,7 +440,7 @@ macro_rules! group_model {
                 let v = bytes[$CB - 1];
                 let ok = mid == 0 && (bytes[0] == 0x80 || (bytes[0] == 0xC0 && v == 0));
                 let d = if bytes[0] == 0x80 { v as u16 + 1 } else { 0 };
-                CtOption::new($A(if ok { d } else { 0 }, ok && bytes[0] == 0x80), Choice::from(ok as u8))
+                CtOption::new($A(if ok { d } else { 0 }, (ok && bytes[0] == 0x80) as u16), Choice::from(ok as u8))
             }
             pub fn from_uncompressed(bytes: &[u8; $UB]) -> CtOption<Self> {
                 let mut mid: u8 = 0;
@@ -452,7 +452,7 @@ macro_rules! group_model {
                 let v = bytes[$UB - 1];
                 let ok = mid == 0 && (bytes[0] == 0x00 || (bytes[0] == 0x40 && v == 0));
                 let d = if bytes[0] == 0x00 { v as u16 + 1 } else { 0 };
-                CtOption::new($A(if ok { d } else { 0 }, ok && bytes[0] == 0x00), Choice::from(ok as u8))
+                CtOption::new($A(if ok { d } else { 0 }, (ok && bytes[0] == 0x00) as u16), Choice::from(ok as u8))
             }
         }
         impl From<$A> for $P {
@@ -475,12 +475,12 @@ macro_rules! group_model {
                 $A(a.0, a.1)
             }
         }
-        binop_refs!($P, $P, $P, Add, add, |a, b| $P(addq(a.0, b.0), false));
-        binop_refs!($P, $P, $P, Sub, sub, |a, b| $P(subq(a.0, b.0), false));
-        binop_refs!($P, Scalar, $P, Mul, mul, |a, s| $P(mulq(a.0, s.0), false));
-        binop_refs!($A, Scalar, $P, Mul, mul, |a, s| $P(mulq(a.0, s.0), false));
-        binop_refs!($P, $A, $P, Add, add, |a, b| $P(addq(a.0, b.0), false));
-        binop_refs!($P, $A, $P, Sub, sub, |a, b| $P(subq(a.0, b.0), false));
+        binop_refs!($P, $P, $P, Add, add, |a, b| $P(addq(a.0, b.0), 0));
+        binop_refs!($P, $P, $P, Sub, sub, |a, b| $P(subq(a.0, b.0), 0));
+        binop_refs!($P, Scalar, $P, Mul, mul, |a, s| $P(mulq(a.0, s.0), 0));
+        binop_refs!($A, Scalar, $P, Mul, mul, |a, s| $P(mulq(a.0, s.0), 0));
+        binop_refs!($P, $A, $P, Add, add, |a, b| $P(addq(a.0, b.0), 0));
+        binop_refs!($P, $A, $P, Sub, sub, |a, b| $P(subq(a.0, b.0), 0));
         impl Neg for $P {
             type Output = $P;
             fn neg(self) -> $P {
@@ -594,12 +594,12 @@ mod tests {
     #[test]
     fn field_axioms_exhaustive() {
         for a in 0..Q as u16 {
-            let sa = Scalar(a, false);
+            let sa = Scalar(a, 0);
             if a != 0 {
                 assert_eq!(sa * sa.invert().unwrap(), Scalar::ONE);
             }
             for b in 0..Q as u16 {
-                let sb = Scalar(b, false);
+                let sb = Scalar(b, 0);
                 assert_eq!((sa + sb) - sb, sa);
                 assert_eq!(sa * sb, sb * sa);
                 assert_eq!(pairing(&G1Affine(a), &G2Affine(b)).0, mulq(a, b));
